@@ -57,6 +57,11 @@ fn parse_op(line: &str) -> Op {
     if REJECTED_FORMS.contains(&line) {
         return Op::Rejected;
     }
+    // a numbered line the line buffer refuses (too long as typed, or too long once listed): an
+    // error, and the line stored under that number - if any - stays
+    if line.len() > 1024 || (line.len() > 400 && line.contains("?:?:?:")) {
+        return Op::Rejected;
+    }
     if line.contains(':') && (line.starts_with("LIST") || line.starts_with("DELETE")) {
         return Op::Seq(line.split(':').map(parse_op).collect());
     }
@@ -250,6 +255,11 @@ const EXTRA: &[&str] = &["65530 PRINT 1", "70000 PRINT 1", "65530", "LIST 65530"
 fn gen_histories(universe: &[u32], len: usize, part: usize, parts: usize, emit: &mut dyn FnMut(&str)) {
     let mut ops = ops_over(universe);
     ops.extend(EXTRA.iter().map(|s| s.to_string()));
+    // refused by the line buffer: 603 bytes typed but 1803 listed (? lists as PRINT); 1100 bytes typed
+    if let Some(k) = universe.get(universe.len() / 2) {
+        ops.push(format!("{} {}?", k, "?:".repeat(300)));
+        ops.push(format!("{} REM {}", k, "x".repeat(1100)));
+    }
     let n = ops.len();
     let mut idx = 0usize;
     for l in 1..=len {
